@@ -94,18 +94,341 @@ def shrink_convert(case):
         yield hexs(s.encode("utf8")) + " " + (",".join(str(c) for c in r) if r else "-")
 
 
+
+# ---------------------------------------------------------------------------------------------------------------
+# comment map, clean-up, hover (Model/Comments.v, Model/Hover.v)
+import luagen
+
+WS = [" ", " ", "  ", "\t", "    ", "\x0b", "\x0c", ""]
+NLS = ["\n", "\n", "\n", "\r\n", "\r\n", "\r", "\n\r"]
+DASH_STYLES = ["--", "-- ", "--  ", "---", "--- ", "--*", "---*", "-- -", "--\t", "----", "-- * ", "--- -* "]
+
+
+def comment_text(rng, script=None, n=None):
+    script = script or rng.choice(["ascii", "ascii", "cjk", "astral", "two", "mix"])
+    cls = {"ascii": [ASCII[:95]], "cjk": [CJK, ASCII[:95]], "astral": [ASTRAL, ASCII[:95]], "two": [TWO, ASCII[:95]],
+           "mix": [ASCII[:95], CJK, ASTRAL]}[script]
+    n = rng.choice([0, 1, 2, 3, 5, 8, 13]) if n is None else n
+    t = rand_text(rng, cls, n).replace("\n", " ").replace("\r", " ")
+    if script == "two" and not any(c in TWO for c in t):
+        t += rng.choice(TWO)
+    return t
+
+
+def short_comment(rng, script=None):
+    t = rng.choice(DASH_STYLES) + comment_text(rng, script)
+    if t.startswith("--[") and (t[3:4] in "[="):
+        t = "-- " + t[2:]
+    return t.replace("---@", "--- @")
+
+
+def long_comment(rng):
+    lvl = rng.choice([0, 0, 1, 2])
+    body = "".join(rng.choice(["a", " x ", "\n", "--", "中", "\r\n", "-- y\n", "]", "="]) for _ in range(rng.choice([0, 1, 3, 6])))
+    close = "]" + "=" * lvl + "]"
+    body = body.replace(close, "")
+    while body.endswith("]") or body.endswith("="):
+        body = body[:-1]
+    return "--[" + "=" * lvl + "[" + body + (close if rng.random() < 0.93 else "")
+
+
+CODE_BITS = ["local x = 1", "x = x + 1", "print(x)", "local s = \"a--b\"", "local t = {1, 2}", "f(a, b)", "do", "end",
+             "if x then", "return", "local l = [[long\nstring -- no comment]]", "y = 'it''s'", "::lab::", "goto lab",
+             "function f(a, b)", "local function g(...)", "while true do", "break", "x = -- mid\n 2", "a.b.c = nil",
+             "local u = 'unfinished", "x = 1e-", "@", "é = 1", "}", "local q <const> = 5"]
+
+
+def gap_file(rng):
+    """lines of (indent, code?, comment?) with all newline kinds: the shapes skipWhiteSpaces distinguishes"""
+    out = []
+    if rng.random() < 0.1:
+        out.append(rng.choice(["﻿", "#!/usr/bin/lua", "#", "﻿#! x"]))
+        if rng.random() < 0.7:
+            out.append(rng.choice(NLS))
+    for _ in range(rng.choice([1, 2, 3, 5, 8, 12])):
+        out.append(rng.choice(WS))
+        k = rng.random()
+        if k < 0.3:
+            out.append(rng.choice(CODE_BITS))
+            out.append(rng.choice(WS))
+        if rng.random() < 0.08:
+            out.append(long_comment(rng) + rng.choice(WS))
+            if rng.random() < 0.5:
+                out.append(rng.choice(CODE_BITS) + rng.choice(WS))
+        k = rng.random()
+        if k < 0.55:
+            out.append(short_comment(rng))
+        elif k < 0.65:
+            out.append(long_comment(rng))
+        out.append(rng.choice(NLS) if rng.random() < 0.9 else rng.choice(NLS) * 2)
+    if rng.random() < 0.3 and out:
+        out.pop()
+    return "".join(out).encode("utf8")
+
+
+LUA_SEPS = [b" ", b" ", b"\n", b"\t", b"\r\n", b" --c\n", b" -- comment \xe4\xb8\xad\n", b" --[[ x ]] ", b"\n-- a\n-- b\n",
+            b"--[==[\n multi ]] \n]==]", b"\n\n", b" ---x\r\n", b"\n--\n", b" --[[ a\n b ]] -- c\n", b"\n  -- i\n\n-- j\n"]
+
+
+def lua_with_comments(rng):
+    g = luagen.Gen(rng, max_depth=3)
+    toks = g.chunk()
+    if rng.random() < 0.3:
+        toks, _ = luagen.mutate(toks, rng)
+    out = bytearray(rng.choice([b"", b"", b"-- head\n", b"--[[ h ]]\n", b"\n-- h1\n-- h2\n"]))
+    for i, t in enumerate(toks):
+        if i > 0:
+            sep = rng.choice(LUA_SEPS)
+            if out.endswith(b"-") and sep.startswith(b"-"):
+                sep = b" " + sep
+            out += sep
+        out += t.text
+    out += rng.choice([b"", b"\n", b" -- tail", b"\n-- last\n-- block", b" --[[ t ]]"])
+    return bytes(out)
+
+
+def gen_cmap(rng, tier):
+    n = {"quick": 2500, "thorough": 100000, "search": 4000}[tier]
+    out = ["-", hexs(b"-- a\n-- b\nlocal x = 1 -- t\n"), hexs(b"--\n-- text\nlocal a = 1"), hexs(b"x = 1 --[[ a\n b ]] -- c\nlocal y")]
+    for k in range(n):
+        m = rng.random()
+        if m < 0.6:
+            b = gap_file(rng)
+        elif m < 0.9:
+            b = lua_with_comments(rng)
+        else:
+            b = bytearray(gap_file(rng) if rng.random() < 0.5 else lua_with_comments(rng))
+            for _ in range(rng.randrange(1, 4)):
+                if not b:
+                    break
+                i = rng.randrange(len(b)); q = rng.random()
+                if q < 0.4:
+                    b[i] = rng.choice([0x2d, 0x0a, 0x0d, 0x5b, 0x5d, 0x20, 0x22, 0x27, rng.randrange(256)])
+                elif q < 0.7:
+                    del b[i]
+                else:
+                    b.insert(i, rng.choice([0x2d, 0x0a, 0x0d, 0x5b, 0x3d, 0x22]))
+            b = bytes(b)
+        out.append(hexs(b))
+    return out
+
+
+def gen_cleanup(rng, tier):
+    n = {"quick": 3000, "thorough": 100000, "search": 4000}[tier]
+    bits = ["-", "-", "*", " ", " ", "\n", "-*", "@param", "@class", "@return x", "@type", "@version", "@vararg", "@overload",
+            "@generic", "@alias", "@par", "a", "b c", "中", "é", "😀", "\t", "- ", " -", "* ", "@"]
+    out = ["-", hexs(b"-"), hexs(b"\n"), hexs(b" a\n"), hexs(b"-* a\n*b\n- c\n  d\n"), hexs(b"@param a\n@return b\ntext\n@type x")]
+    for k in range(n):
+        s = "".join(rng.choice(bits) for _ in range(rng.choice([1, 2, 3, 5, 8, 12])))
+        out.append(hexs(s.encode("utf8")))
+    return out
+
+
+# ---- hover: generated declarations with comments
+def py_hover_line(l):
+    l = l.lstrip(" ")
+    if l.startswith("-*"):
+        l = l[2:]
+    if l.startswith("-"):
+        l = l[1:]
+    return l.lstrip(" ")
+
+
+def string_literal(rng, script):
+    if script == "two" and rng.random() < 0.7:
+        script = "ascii"                                      # a 2-byte character inside a string literal needs the lexer's GBK oracle
+    body = comment_text(rng, script, rng.choice([0, 1, 3, 6])).replace("\\", "/").replace('"', "'").replace("\n", " ")
+    if rng.random() < 0.3:
+        return "'" + body.replace("'", "") + "'"
+    if rng.random() < 0.15:
+        return "[[" + body.replace("]", ")") + "]]"
+    return '"' + body + '"'
+
+
+def hover_file(rng):
+    """-> (source text, [(line, col_lo, col_hi)] hover targets, [announced documentation texts])"""
+    script = rng.choice(["ascii", "ascii", "cjk", "astral", "mix", "two"])
+    lines, targets, names, docs = [], [], [], []
+    ndecl = rng.choice([1, 2, 3, 4, 6])
+    nl_style = rng.random()
+    for d in range(ndecl):
+        name = rng.choice(["a", "b", "cfg", "val", "x1", "Name", "_p", "fn", "go", "T"]) + str(d)
+        indent = rng.choice(["", "", "", " ", "  ", "\t"])
+        lead = []
+        k = rng.random()
+        if k < 0.7:
+            for _ in range(rng.choice([1, 1, 2, 3])):
+                lead.append(indent + short_comment(rng, script))
+        elif k < 0.78:
+            lead.append(indent + long_comment(rng).replace("\r\n", "\n"))
+        if lead and rng.random() < 0.12:
+            lead.append("")                                   # separated by a blank line
+        if lead and rng.random() < 0.06:
+            lead.insert(rng.randrange(len(lead) + 1), indent + "--")
+        if len(lead) >= 2 and lead[-1] != "" and rng.random() < 0.15:
+            lead.insert(rng.randrange(1, len(lead)), "")      # two blocks separated by a blank line: only the lower one counts
+        lines += [x for l in lead for x in l.split("\n")]
+        kind = rng.choice(["local", "local", "global", "lfunc", "gfunc", "lfval", "gfval", "local2", "global2"])
+        params = rng.choice([[], ["p"], ["p", "q"], ["self", "n"]])
+        va = rng.random() < 0.25
+        plist = ", ".join(params + (["..."] if va else []))
+        body = rng.choice([" ", " print(%s) " % (params[0] if params else "1"), " print(1) print(2) "])
+        val = rng.choice([str(rng.choice([0, 1, 7, 42, 65536, 2 ** 40])), "0x%x" % rng.randrange(1 << 20), string_literal(rng, script),
+                          string_literal(rng, script), "true", "false", "nil"])
+        col0 = len(indent)
+        if kind == "local":
+            has_val = rng.random() < 0.85
+            text = "local " + name + (" = " + val if has_val else "")
+            spots = [(col0 + 6, name)]
+        elif kind == "global":
+            text = name + " = " + val
+            spots = [(col0, name)]
+        elif kind == "lfunc":
+            text = "local function %s(%s)%send" % (name, plist, body)
+            spots = [(col0 + 15, name)]
+        elif kind == "gfunc":
+            text = "function %s(%s)%send" % (name, plist, body)
+            spots = [(col0 + 9, name)]
+        elif kind == "lfval":
+            text = "local %s = function(%s)%send" % (name, plist, body)
+            spots = [(col0 + 6, name)]
+        elif kind == "gfval":
+            text = "%s = function(%s)%send" % (name, plist, body)
+            spots = [(col0, name)]
+        elif kind == "local2":
+            n2 = name + "b"
+            text = "local %s, %s = %s, %s" % (name, n2, val, rng.choice(["1", "true", "nil", '"s"']))
+            spots = [(col0 + 6, name), (col0 + 8 + len(name), n2)]
+        else:
+            n2 = name + "b"
+            text = "%s, %s = %s, %s" % (name, n2, val, rng.choice(["2", "false", '"z"']))
+            spots = [(col0, name), (col0 + 2 + len(name), n2)]
+        trail = ""
+        k = rng.random()
+        if k < 0.4:
+            trail = rng.choice([" ", "  ", "\t", ""]) + short_comment(rng, script)
+        elif k < 0.47:
+            trail = " " + long_comment(rng).replace("\n", " ").replace("\r", " ")
+        if text.endswith("-") and trail.startswith("-"):
+            trail = " " + trail
+        ln = len(lines)
+        lines.append(indent + text + trail)
+        for (c, nm) in spots:
+            targets.append((ln, c, c + len(nm)))
+            names.append(nm)
+        # the documentation the generator expects (only used to announce GBK oracle inputs; never decides anything)
+        cands = []
+        if trail.lstrip(" \t").startswith("--") and not trail.lstrip(" \t").startswith("--["):
+            cands.append([trail.lstrip(" \t")[2:]])
+        blk = []
+        for l in reversed(lines[:ln]):
+            if l.lstrip(" \t").startswith("--") and not l.lstrip(" \t").startswith("--["):
+                blk.insert(0, l.lstrip(" \t")[2:])
+            else:
+                break
+        for j in range(len(blk)):
+            c = blk[j:]
+            while c and c[0] == "":
+                c = c[1:]                                     # the join drops leading empty lines
+            cands.append(c)
+        for c in cands:
+            docs.append("".join("  \n" + py_hover_line(x) for x in c))
+        if rng.random() < 0.2:
+            lines.append("")
+    # uses
+    for _ in range(rng.choice([1, 2, 3])):
+        pick = [rng.choice(names) for _ in range(rng.choice([1, 2, 3]))]
+        form = rng.choice(["print", "do", "func", "if"])
+        if form == "print":
+            pre, post = "print(", ")"
+        elif form == "do":
+            pre, post = "do print(", ") end"
+        elif form == "func":
+            pre, post = "function use%d() print(" % len(lines), ") end"
+        else:
+            pre, post = "if true then print(", ") end"
+        col = len(pre)
+        ln = len(lines)
+        for i, nm in enumerate(pick):
+            targets.append((ln, col, col + len(nm)))
+            col += len(nm) + 2
+        lines.append(pre + ", ".join(pick) + post + rng.choice(["", "", " -- use"]))
+    nl = "\r\n" if nl_style < 0.12 else "\n"
+    src = nl.join(lines) + rng.choice(["", nl])
+    if rng.random() < 0.04:
+        src = "﻿" + src
+        targets = [(l, a + (1 if l == 0 else 0) * 0, b) for (l, a, b) in targets]   # the BOM is not part of line 0's columns
+    return src, targets, docs
+
+
+def hover_case(rng, src, targets, docs, k):
+    items = ["F:%s:%s" % (hexs(b"a.lua"), hexs(src.encode("utf8"))), "S:open:0"]
+    for (l, a, b) in rng.sample(targets, min(k, len(targets))):
+        items.append("S:hover:0:%d:%d" % (l, rng.randint(a, b)))
+    for d in sorted(set(docs)):
+        if d and any(0x80 <= ord(c) < 0x800 for c in d):
+            items.append("G:" + hexs(d.encode("utf8")))
+    return " ".join(items)
+
+
+HOVER_FIXED = [
+    ("-- leading one\n-- leading two\nlocal a = 1 -- trailing a\n-- block for b\nlocal b = \"str\"\n\n-- separated\n\nlocal c = 3\n"
+     "--[[ long lead ]]\nlocal d = true\nlocal e = nil --[[ long trail ]]\n--- triple dash\ng1 = 12\n-- func doc\n"
+     "function f1(x, y) end\nlocal function f2(p, ...) end -- tail f2\nprint(a, b, c, d, e, g1, f1, f2)\n",
+     [(2, 6), (4, 6), (8, 6), (10, 6), (11, 6), (13, 0), (15, 9), (16, 15), (17, 6), (17, 9), (17, 12), (17, 15), (17, 18), (17, 22), (17, 26), (17, 30)]),
+    ("-- 中文注释\nlocal zh = \"漢字\" -- テスト😀\n--\n-- after an empty line\nlocal e2 = 0x10\n", [(1, 6), (4, 6)]),
+]
+
+
+def gen_hover(rng, tier):
+    n = {"quick": 1000, "thorough": 20000, "search": 1500}[tier]
+    out = []
+    for (src, pos) in HOVER_FIXED:
+        out.append(" ".join(["F:%s:%s" % (hexs(b"a.lua"), hexs(src.encode("utf8"))), "S:open:0"] + ["S:hover:0:%d:%d" % p for p in pos]))
+    for k in range(n):
+        src, targets, docs = hover_file(rng)
+        out.append(hover_case(rng, src, targets, docs, rng.choice([1, 2, 3, 4])))
+    return out
+
+
+def shrink_hover(case):
+    its = case.split(" ")
+    f = [x for x in its if x.startswith("F:")][0]
+    steps = [x for x in its if x.startswith("S:hover")]
+    rest = [x for x in its if x.startswith("G:")]
+    if len(steps) > 1:
+        for s in steps:
+            yield " ".join([f, "S:open:0", s] + rest)
+
+
+def hover_nontrivial(c):
+    f = [x for x in c.split(" ") if x.startswith("F:")][0]
+    return b"--" in bytes.fromhex(f.split(":")[2])
+
+
+SKIP = lambda m: m.startswith("SKIP")
+
 LEGS = [
     Leg("c13.convert", gen_convert, oracle="c13.gbk", shrink=shrink_convert,
         nontrivial=lambda c: any(int(x) > 127 for x in c.split(" ")[1].split(",") if x != "-")),
     Leg("c13.isutf8", gen_isutf8, shrink=shrink_hex, nontrivial=lambda c: c != "-" and any(b > 127 for b in bytes.fromhex(c))),
+    Leg("c13.cmap", gen_cmap, shrink=shrink_hex, skip_model=SKIP, nontrivial=lambda c: c != "-" and b"--" in bytes.fromhex(c)),
+    Leg("c13.cleanup", gen_cleanup, shrink=shrink_hex, nontrivial=lambda c: c != "-"),
+    Leg("c13.hover", gen_hover, oracle="c13.gbkdoc", shrink=shrink_hover, skip_model=SKIP, nontrivial=hover_nontrivial, per_case_s=0.12),
 ]
 
 TRUSTED = vlib.TRUSTED_COMMON + [
     "oracle: GBK decoder of golang.org/x/text (Section variable gbk_decode; the theorems hold for every decoder)",
     "modelled, tied by correspondence: codingconv.isUtf8 / preNUm / ConvertStrToUtf8",
+    "modelled, tied by correspondence (leg c13.cmap, parser.BeginAnalyze directly): the comment map of lexer.skipWhiteSpaces as consumed by the parser",
+    "modelled, tied by correspondence (leg c13.cleanup): getFinalStrComment (hook check.VerifFinalStrComment) and GetStrComment",
+    "modelled, tied by correspondence through the real server (leg c13.hover = srv.script): GetLineComment, label forms of Model/Hover.v, TextDocumentHover assembly",
+    "shared Lua front end (Model/Lexer.v, Parser.v, LuaFront.v) as validated by C01/C03/C04",
 ]
 
 
 def main(tier, seed):
     return vlib.standard_main("C13", LEGS, tier, seed, trusted=TRUSTED,
-                              assumptions=["label rendering and comment attachment: see legs c13.hover* (when present)"])
+                              assumptions=["label rendering is modelled for the declaration forms of Model/Hover.v only (top-level local/global with integer/string/boolean/nil/no value, four function forms with plain bodies); other forms, annotation comments (---@), files with syntax errors and hover on the first line of a BOM file are skipped by the hover leg",
+                                           "C13_gap_entries covers gaps made of white space, LF/CRLF line breaks and `--text` comments not starting with `[`; long-bracket comments, lone CR / LFCR and the key-disjointness of different gaps are covered by correspondence (leg c13.cmap) only",
+                                           "the spec column of leg c13.hover is stated only for files whose comments are all `--` line comments (long-bracket comments are never shown: stricter reading of 'comment block')"])
